@@ -49,11 +49,11 @@ func c10Docs() (a, b []index.Document) {
 	a = []index.Document{
 		{Name: "a/x.go", Branches: []string{"main"}, Content: []byte("package x\nfunc Foo() {}\n"),
 			Symbols: []index.DocumentSection{{Start: 15, End: 18}}, SymbolsMetaData: []*zoekt.Symbol{{Sym: "Foo", Kind: "function"}}},
-		{Name: "a/x.go", Branches: []string{"dev"}, Content: []byte("package x\nfunc Foo() { bar }\n"),
+		{Name: "a/x.go", Branches: []string{"dev"}, Content: []byte("package x\nfunc Foo() { bar }\n// héllo wörld\n"),
 			Symbols: []index.DocumentSection{{Start: 15, End: 18}}, SymbolsMetaData: []*zoekt.Symbol{{Sym: "Foo", Kind: "function"}}},
-		{Name: "b/y.txt", Branches: []string{"main", "dev"}, Content: []byte("foo bar baz\nfoo é bar\n")},
+		{Name: "b/y.txt", Branches: []string{"main", "dev"}, Content: []byte("foo bar baz\nfoo é bar\nwörld héllo\n")},
 		{Name: "c/z.txt", Branches: []string{"main"}, Content: []byte("ab")}, // too small: stored as an explanation
-		{Name: "é/ü.md", Branches: []string{"dev"}, Content: []byte("The Foo and the bar, foo.\n")},
+		{Name: "é/ü.md", Branches: []string{"dev"}, Content: []byte("The Foo and the bar, foo. Héllo wörld\n")},
 		{Name: "long.txt", Branches: []string{"main", "dev"}, Content: []byte(strings.Repeat("é", 101) + " foo bar\n" + strings.Repeat("xy ", 40) + "bar foo")},
 	}
 	b = []index.Document{
@@ -70,7 +70,7 @@ var c10QueryStrings = []string{
 	"f:x.go", "f:é", "f:y.txt foo", "f:\\.go$ func",
 	"branch:dev foo", "branch:main", "branch:HEAD bar",
 	"lang:go", "sym:Foo", "sym:bar",
-	"foo -bar", "(package or baz)", "r:two foo", "r:alpha -f:x.go bar", "type:file foo", "xy bar",
+	"wörld", "héllo", "héllo wörld", "w.rld", "foo -bar", "(package or baz)", "r:two foo", "r:alpha -f:x.go bar", "type:file foo", "xy bar",
 }
 
 func c10Clone(d index.Document) index.Document {
